@@ -277,4 +277,74 @@ theorem new_messages_readback (sr : Msg → Bool) (c : Conn) (evs : List Event) 
   intro f hf n hn
   exact recoverOut_single _ g.inv.sorted n f (g.freshRow trivial f hf n hn)
 
+
+/-! ## non-vacuity -/
+def j0 : Journal := { outSeq := 41, inSeq := 6 }
+def c0 : Conn := Conn.create "INIT" "ACPT" j0 30 roleInitiator
+def c1 : Conn := (connected c0 .initiator).1
+def env0 : Env := { now := 1700000000000, stamp := "20240102-00:00:00.000" }
+def logon : Msg := Msg.mk' mLogon [(tEncryptMethod, "0"), (tHeartBtInt, "30")]
+def order (t : String) : Msg := Msg.mk' "D" [(11, "c1"), (58, t)]
+
+theorem c0_inv : OutInv c0 :=
+  outInv_create _ _ _ _ _ (by decide) (by simp [j0, Rows.Sorted]) (by simp [j0])
+
+theorem c1_inv : OutInv c1 := outInv_step (fun _ => true) c0 (.connected .initiator) c0_inv trivial
+
+example : c1.state = st_NETWORK_CONN_ESTABLISHED ∧ c1.sess.nextOut = 42 := by decide
+
+theorem logon_latin : frameLatin1 (buildFrame c1.sess env0.stamp logon c1.sess.nextOut) = true :=
+  frameLatin1_build _ _ _ _ (by decide) (by decide) (by decide) ⟨by decide, by decide⟩
+
+/-- `send_numbered` applies: the first Logon of an initiator whose stored counter is 41 leaves as 42 -/
+example : seqOf (buildFrame c1.sess env0.stamp logon 42) = some 42 ∧
+    (appSend env0 c1 logon).1.sess.nextOut = 43 ∧ (appSend env0 c1 logon).1.journal.outSeq = 42 := by
+  have h := send_numbered env0 c1 logon c1_inv rfl (by decide) logon_latin
+  exact ⟨h.2.2.1, h.2.2.2.2.2.1, h.2.2.2.2.2.2.2.1⟩
+
+/-- `refused_send_unchanged` applies: an application message as first message of an initiator -/
+example : appSend env0 c1 (order "x") = (c1, [.raised .connection]) :=
+  refused_send_unchanged env0 c1 (order "x") rfl (by decide)
+
+/-- `encoding_refusal` applies: a Logon with a non-single-byte field from NETWORK_CONN_ESTABLISHED; the
+state HAS moved to LOGON_INITIAL_SENT although nothing was sent -/
+def badLogon : Msg := Msg.mk' mLogon [(tEncryptMethod, "0"), (tHeartBtInt, "30"), (553, "€")]
+
+example : (appSend env0 c1 badLogon).1.state = st_LOGON_INITIAL_SENT ∧
+    (appSend env0 c1 badLogon).1.sess = c1.sess ∧ (appSend env0 c1 badLogon).1.journal = c1.journal := by
+  have h := encoding_refusal env0 c1 badLogon rfl (by decide) (by decide)
+  rw [h.1]
+  exact ⟨by decide, h.2.1, h.2.2.1⟩
+
+def peer (mtype : String) (seq : Int) (body : List (Nat × String)) : Msg :=
+  Msg.ofFields ([(8, "FIX.4.4"), (9, "0"), (35, mtype), (49, "ACPT"), (56, "INIT"), (34, toString seq),
+    (52, "20240102-00:00:01.000")] ++ body ++ [(10, "000")])
+
+def hist : List Event := [
+  .connected .initiator,
+  .appSend env0 logon,
+  .recv env0 (peer "A" 7 [(98, "0"), (108, "30")]),
+  .appSend env0 (order "one"),
+  .appSend env0 (order "two"),
+  .recv env0 (peer "2" 8 [(7, "42"), (16, "0")]),
+  .recv env0 (peer "1" 9 [(112, "T")]),
+  .tick env0,
+  .appSend env0 (order "€") ]
+
+theorem hist_ok : ∀ ev ∈ hist, ev.ok ∧ isReset ev = false := by
+  intro ev hev
+  simp only [hist, List.mem_cons, List.mem_nil_iff, or_false] at hev
+  rcases hev with rfl | rfl | rfl | rfl | rfl | rfl | rfl | rfl | rfl <;> exact ⟨by first | trivial | decide | rfl, rfl⟩
+
+/-- the history theorems apply to `hist` from `c0`, and `hist` is not trivial: four new messages leave
+(Logon, two orders, the Heartbeat answering the TestRequest), numbered 42 … 45 from the stored counter
+41, although a ResendRequest is serviced in between and the last send is refused (EncodingError). -/
+example : OutInv (run (fun _ => true) c0 hist).1 :=
+  (new_messages_consecutive _ c0 hist c0_inv hist_ok).2.2.2
+
+example : (newWrites (run (fun _ => true) c0 hist).2).map seqOf = [some 42, some 43, some 44, some 45] := by
+  decide +kernel
+
+example : ∀ ev ∈ hist, boundedResend ev = false := by decide
+
 end AsyncFix.Props.C05
